@@ -158,3 +158,116 @@ def generate():
         errors.append("%s: %s" % (type(e).__name__, e))
     body += "\nend Markup.Gen\n"
     return emit("Ansi", body, ["loguru/_colorizer.py"], errors)
+
+
+# ----------------------------------------------------------------------------- _handler.py / _logger.py shapes
+def _resolve_name(stmts, idx, name):
+    """source of the value last assigned to `name` before statement idx of the same block"""
+    for st in reversed(stmts[:idx]):
+        if isinstance(st, ast.Assign) and len(st.targets) == 1 and isinstance(st.targets[0], ast.Name) \
+                and st.targets[0].id == name:
+            return ast.unparse(st.value)
+    return None
+
+
+def _blocks(node):
+    """every statement list inside node"""
+    for n in ast.walk(node):
+        for attr in ("body", "orelse", "finalbody"):
+            b = getattr(n, attr, None)
+            if isinstance(b, list) and b and isinstance(b[0], ast.stmt):
+                yield b
+
+
+def generate_emit():
+    """Generated/MarkupEmit.lean: (a) what the memoised dynamic-format cache of a colourising handler is keyed on
+    and what the memoised function computes, (b) where `Handler.emit` drops a coloured message that no longer
+    is record["message"]."""
+    errors = []
+    body = "namespace Markup.GenEmit\n\n"
+    try:
+        tree, _ = parse_module("_handler.py")
+        emit_fn = find_func(tree, "emit", cls="Handler")
+        # (a) second argument of every two-argument call of the memoised function, resolved through the local
+        # assignment that precedes it in the same block
+        keys = []
+        for blk in _blocks(emit_fn):
+            for i, st in enumerate(blk):
+                for node in ast.walk(st) if not isinstance(st, (ast.If, ast.Try, ast.With, ast.For, ast.While)) else []:
+                    if isinstance(node, ast.Call) and ast.unparse(node.func) == "self._memoize_dynamic_format" \
+                            and len(node.args) == 2 and not node.keywords:
+                        a = node.args[1]
+                        src = ast.unparse(a)
+                        if isinstance(a, ast.Name):
+                            src = _resolve_name(blk, i, a.id) or src
+                        keys.append((ast.unparse(node.args[0]), src))
+        if not keys:
+            raise Unsupported("no two-argument call of self._memoize_dynamic_format in Handler.emit")
+        body += "/-- (first, second) argument of every colourising use of the memoised dynamic-format cache in\n"
+        body += "`Handler.emit`, the second resolved through its local assignment -/\n"
+        body += "def dynCacheKeys : List (List Char × List Char) := [%s]\n\n" % ", ".join(
+            "(%s, %s)" % (lean_chars(a), lean_chars(b)) for a, b in keys)
+        # the memoised function
+        init = find_func(tree, "__init__", cls="Handler")
+        memo = []
+        for node in ast.walk(init):
+            if isinstance(node, ast.Assign) and ast.unparse(node.targets[0]) == "self._memoize_dynamic_format" \
+                    and isinstance(node.value, ast.Call) and ast.unparse(node.value.func) == "memoize" \
+                    and len(node.value.args) == 1:
+                memo.append(ast.unparse(node.value.args[0]))
+        colored_fn = [m for m in memo if "colored" in m]
+        if len(colored_fn) != 1:
+            raise Unsupported("memoised functions: %r" % (memo,))
+        fname = colored_fn[0].split(".")[-1]
+        fn = find_func(tree, fname)
+        rets = [n for n in ast.walk(fn) if isinstance(n, ast.Return)]
+        if len(rets) != 1 or rets[0].value is None:
+            raise Unsupported("memoised function %s: return shape" % fname)
+        params = [a.arg for a in fn.args.args if a.arg != "self"]
+        body += "/-- parameters and returned expression of the memoised function -/\n"
+        body += "def dynPrepParams : List (List Char) := [%s]\n" % ", ".join(lean_chars(p) for p in params)
+        body += "def dynPrepReturn : List Char := %s\n\n" % lean_chars(ast.unparse(rets[0].value))
+
+        # (b) the drop rule
+        tries = [n for n in emit_fn.body if isinstance(n, ast.Try)]
+        if len(tries) != 1:
+            raise Unsupported("Handler.emit: expected one try block")
+        top = tries[0].body
+        want = "colored_message is not None and colored_message.stripped != record['message']"
+        i_drop = i_filter = i_dyn = None
+        for i, st in enumerate(top):
+            if isinstance(st, ast.If):
+                t = ast.unparse(st.test)
+                if t == want and len(st.body) == 1 and ast.unparse(st.body[0]) == "colored_message = None" and not st.orelse:
+                    i_drop = i
+                if t == "self._filter is not None":
+                    i_filter = i
+                if t == "self._is_formatter_dynamic" and i_dyn is None and "self._formatter(record)" in ast.unparse(st):
+                    i_dyn = i
+        if i_filter is None or i_dyn is None:
+            raise Unsupported("Handler.emit: filter / dynamic-format statements not found at top level")
+        ncmp = sum(1 for n in ast.walk(emit_fn) if isinstance(n, ast.Compare) and ".stripped" in ast.unparse(n))
+        ltree, _ = parse_module("_logger.py")
+        log_fn = find_func(ltree, "_log", cls="Logger")
+        nlog = sum(1 for n in ast.walk(log_fn) if isinstance(n, ast.Compare) and ".stripped" in ast.unparse(n))
+        body += "/-- `if colored_message is not None and colored_message.stripped != record[\"message\"]: colored_message = None`\n"
+        body += "is an unconditional top-level statement of `Handler.emit` … -/\n"
+        body += "def dropRuleTopLevel : Bool := %s\n" % ("true" if i_drop is not None else "false")
+        body += "/-- … placed after the calls of the user's filter and format function … -/\n"
+        body += "def dropRuleAfterUserCode : Bool := %s\n" % (
+            "true" if (i_drop is not None and i_drop > i_filter and i_drop > i_dyn) else "false")
+        body += "/-- … and it is the only comparison with `.stripped` in `emit`; `Logger._log` has none -/\n"
+        body += "def emitStrippedCompares : Nat := %d\ndef logStrippedCompares : Nat := %d\n" % (ncmp, nlog)
+    except (Unsupported, SyntaxError, KeyError, AttributeError, IndexError, OSError) as e:
+        errors.append("%s: %s" % (type(e).__name__, e))
+    body += "\nend Markup.GenEmit\n"
+    return emit("MarkupEmit", body, ["loguru/_handler.py", "loguru/_logger.py"], errors)
+
+
+_generate_tables = generate
+
+
+def generate():  # noqa: F811  (both files; each fails closed on its own)
+    a = _generate_tables()
+    b = generate_emit()
+    return a and b
